@@ -1,5 +1,6 @@
 import ModVerif.Drv.MainLoop
 import ModVerif.Drv.Zip
+import ModVerif.Drv.ZipSpell
 import ModVerif.Drv.Dirhash
 import ModVerif.Drv.GenZip
 import ModVerif.Drv.GenZipIO
@@ -15,4 +16,4 @@ def gzip : Handler := fun op args =>
     <|> (GenZipDir.handle Zip.realEnv.cfp GenModule.equalFoldI ModVerif.Semver.canonicalVersion
           (fun p v => match ModVerif.Module.check p v with | .ok _ => true | .error _ => false) op args)
 
-def main : IO Unit := runMain [("zip", Zip.handle), ("dirhash", Dirhash.handle), ("gzip", gzip), ("gdirhash", fun op args => (GenDirhash.handle op args) <|> (GenDirhash.handleDir op args))]
+def main : IO Unit := runMain [("zip", fun op args => (Zip.handle op args) <|> (ZipSpell.handle op args)), ("dirhash", Dirhash.handle), ("gzip", gzip), ("gdirhash", fun op args => (GenDirhash.handle op args) <|> (GenDirhash.handleDir op args))]
